@@ -39,6 +39,9 @@ def normd(d):
 
 def replay(case):
     "returns a list of differences (empty = the code does what the specification says)"
+    for k in ('cmd', 'file', 'default', 'force', 'effective'):
+        if isinstance(case[k], list):      # the empty function is printed as an empty JSON array
+            case[k] = {}
     file_opts = ' '.join('%s=%s' % (k, v) for k, v in sorted(case['file'].items()))
     blt = BLT % ('[droop %s]' % file_opts if file_opts else '')
     cmd = {k: typed(v) for k, v in case['cmd'].items()}
